@@ -118,20 +118,7 @@ func NewFlagSignalType(name string) *SignalType {
 // with the given name, size, and signed.
 // It may return an error if the size is negative.
 func NewIntegerSignalType(name string, size int, signed bool) (*SignalType, error) {
-	var min float64
-	var max float64
-
-	if signed {
-		tmpMax := (1<<size - 1) - 1
-		tmpMin := -(1<<size - 1)
-		min = float64(tmpMin)
-		max = float64(tmpMax)
-	} else {
-		tmp := (1 << size) - 1
-		min = 0
-		max = float64(tmp)
-	}
-
+	min, max := calcTypeRange(size, signed)
 	return newSignalType(name, SignalTypeKindInteger, size, signed, min, max, 1, 0)
 }
 
@@ -139,9 +126,29 @@ func NewIntegerSignalType(name string, size int, signed bool) (*SignalType, erro
 // with the given name, size and signed.
 // It may return an error if the size is negative.
 func NewDecimalSignalType(name string, size int, signed bool) (*SignalType, error) {
-	min := (1<<size - 1) - 1
-	max := -(1<<size - 1)
-	return newSignalType(name, SignalTypeKindDecimal, size, signed, float64(min), float64(max), 1, 0)
+	min, max := calcTypeRange(size, signed)
+	return newSignalType(name, SignalTypeKindDecimal, size, signed, min, max, 1, 0)
+}
+
+// calcTypeRange returns the minimum and maximum raw values that can be
+// represented with the given size in bits (two's complement when signed).
+func calcTypeRange(size int, signed bool) (float64, float64) {
+	if size <= 0 {
+		return 0, 0
+	}
+
+	if size > maxSize {
+		size = maxSize
+	}
+
+	if signed {
+		tmpMin := int64(-1) << (size - 1)
+		tmpMax := -(tmpMin + 1)
+		return float64(tmpMin), float64(tmpMax)
+	}
+
+	tmpMax := ^uint64(0) >> (maxSize - size)
+	return 0, float64(tmpMax)
 }
 
 func (st *SignalType) stringify(b *strings.Builder, tabs int) {
